@@ -311,3 +311,60 @@ def fix_hb_burst(rng, ver, hb_fields, total):
     hb = fix_good(ver, hb_fields)
     n = -(-total // len(hb))
     return _mk('fix:heartbeat-burst', None, (), parts=[['rep', hb.hex(), n]])
+
+
+# ====================================================================== application payloads (ITCH / OUCH / SQF inside SequencedData)
+# layout of the applications defined in sess_hostile.app_libs: indicator byte | body
+#   1 Num: n (8, big endian)      2 Txt: n (8) | s: len (2, little endian, SIGNED) + bytes | m (8)
+#   3 Arr: n (8) | a: count (2, big endian, signed) + count x short | t: count (2, BE) + count x (len (2, LE) + bytes)
+#   4 Fxd: n (8) | f: 4 bytes
+HOSTILE_N = 4242424242          # the number hostile application messages carry (never a numbered valid message)
+
+
+def _i16le(v):
+    return int(v).to_bytes(2, 'little', signed=True)
+
+
+def _i16be(v):
+    return int(v).to_bytes(2, 'big', signed=True)
+
+
+def app_malformed(rng):
+    """malformed / extreme application payloads, each inside one well-formed SequencedData packet.  -> frames as for soup_malformed"""
+    n8 = HOSTILE_N.to_bytes(8, 'big')
+    m8 = (7).to_bytes(8, 'big')
+    txt = lambda ln, body=b'': b'\x02' + n8 + _i16le(ln) + body + m8
+    arr = lambda ca, items, ct, strs: b'\x03' + n8 + _i16be(ca) + items + _i16be(ct) + strs
+    good = {'num': b'\x01' + n8, 'txt': txt(3, b'abc'), 'arr': arr(2, b'\x00\x01\x00\x02', 1, _i16le(2) + b'xy'), 'fxd': b'\x04' + n8 + b'abcd'}
+    out = []
+
+    def add(cls, payload):
+        pk = soup_pkt(b'S', payload)
+        out.append(_mk('app:' + cls, pk, (1, 2, 3, 4, len(pk) - 1)))
+    for ind in rng.sample([0, 5, 9, 0x30, 0x63, 0x7f, 0x80, 0xff], 3):
+        add('unknown-indicator', bytes([ind]) + rng.randbytes(rng.choice([0, 1, 8, 20])))
+    add('empty-payload', b'')
+    for k, g in good.items():
+        for cut in sorted({0, 1, rng.randrange(1, len(g)), len(g) - 1}):
+            if 0 < cut < len(g):
+                add('truncated:' + k, g[:cut])
+        add('trailing-bytes:' + k, g + rng.choice([b'\x00', b'\x01', g, rng.randbytes(5)]))
+        add('batch:' + k, g + good['num'])                       # two messages back to back in one packet
+        add('well-formed:' + k, g)                               # for contrast: a decodable message of every kind
+    # variable-length string: signed 16-bit length — negative (consumed total 0, negative, = -payload), zero, beyond the payload, maximal
+    body_after = len(m8)
+    for ln in (-1, -2, -3, -(2 + 8 + 1), -(2 + 8 + 1 + body_after), -(2 + 8 + 1 + body_after + 3), -100, -32768, 0, 1, 4, 5, 200, 32767):
+        add('string-length:' + ('negative' if ln < 0 else 'zero' if ln == 0 else 'beyond' if ln > 3 else 'short'), txt(ln, b'abc'))
+    add('string-length:negative-alone', b'\x02' + n8 + _i16le(-3))
+    add('string-length:negative-consumes-nothing', b'\x02' + _i16le(-3)[:0] + b'\xfd\xff')       # the seed of C07h: type, then length -3
+    add('string-nonascii', txt(3, b'\xff\xfe\xc3'))
+    add('fixed-string-nonascii', b'\x04' + n8 + b'\xff\xfe\x00\x80')
+    # arrays: count negative / zero / larger than what follows / maximal; strings inside arrays with negative lengths
+    for ca in (-1, -32768, 0, 1, 3, 1000, 32767):
+        add('array-count:' + ('negative' if ca < 0 else 'zero' if ca == 0 else 'beyond'), arr(ca, b'\x00\x01', 0, b''))
+    for ct in (-1, 0, 2, 32767):
+        add('string-array-count:' + ('negative' if ct < 0 else 'zero' if ct == 0 else 'beyond'), arr(1, b'\x00\x01', ct, _i16le(1) + b'x'))
+    for ln in (-1, -3, -32768, 32767):
+        add('string-in-array-length:' + ('negative' if ln < 0 else 'beyond'), arr(0, b'', 2, _i16le(ln) + b'ab' + _i16le(1) + b'c'))
+    add('garbage', rng.randbytes(rng.randint(1, 30)))
+    return out
